@@ -349,7 +349,8 @@ func (fv *FV) applyContract(st *State, call *ast.CallExpr, fc *FuncContract, sel
 		st.assume(t)
 	}
 	// write back modified parameters
-	for m, nv := range post {
+	for _, m := range sortedKeys(post) {
+		nv := post[m]
 		p := paths[m]
 		if p == nil {
 			fv.note("modified argument of " + fc.Name + " is not a location; the update is lost: " + m)
